@@ -405,6 +405,15 @@ def g_update(k):
         r = k.call("updateCoords", lambda: k.fresh().updateCoords(lambda i, c, p: n - 1 - c, depth=d))
         if r is not None:
             k.check("updateCoords", set(), r, exp)
+        # the documented renaming of the updated rank, at every depth
+        ids2 = list(k.ids)
+        ids2[d] = "X"
+        k.par = "depth=%d func=reverse within %d new_rank_id=X" % (d, n)
+        r = k.call("updateCoords", lambda: k.fresh().updateCoords(lambda i, c, p: n - 1 - c, depth=d, new_rank_id="X"))
+        # (a rank none of whose fibers stores a coordinate is left alone by updateCoords: "nothing to do")
+        if r is not None and all(any(len(f_.coords) for f_ in rk.fibers) for rk in k.fresh().ranks[:d + 1]):
+            k.check("updateCoords", {"new_rank_id", "update_depth>0" if d else "update_depth=0"}, r,
+                    (ids2, k.shape, k.fm))
     k.par = "identity at the leaf rank"
     r = k.call("updatePayloads", lambda: k.fresh().updatePayloads(lambda i, c, p: p, depth=D - 1))
     if r is not None:
